@@ -125,7 +125,7 @@ theorem compile_gstmt : ∀ (fuel : Nat),
         simp only [List.append_assoc, List.cons_append, List.nil_append]
         rfl
       case letS sp name vty needsCast oty e =>
-        simp only [Frag.okFS, Bool.and_eq_true, Bool.not_eq_eq_eq_not, Bool.not_true] at hs
+        simp only [Frag.okFS, Bool.and_eq_true, Bool.not_eq_eq_eq_not, Bool.not_true, Bool.or_eq_true] at hs
         obtain ⟨hnc, he⟩ := hs
         subst hnc
         simp only [Frag.cdS] at hd
@@ -133,9 +133,9 @@ theorem compile_gstmt : ∀ (fuel : Nat),
         obtain ⟨f', rfl⟩ : ∃ f', fuel = f' + 1 := ⟨fuel - 1, by omega⟩
         rw [compileStmt, cgS]
         refine bind_run _ _ _ _ (freshVar cs.currModule
-          { env with lm := (cgE cs.currModule (ρS env.scopes) (φOf cs) e env.lm).2 } name).1 _ ?_ rfl
+          { env with lm := (cgL cs.currModule (ρS env.scopes) (φOf cs) e env.lm).2 } name).1 _ ?_ rfl
         rw [compileLet]
-        refine bind_run _ _ _ _ _ _ (compile_xexpr f' e cs he (by omega) L c0 env hws) ?_
+        refine bind_run _ _ _ _ _ _ (compile_lexpr f' e cs (he.imp id (fun h => h.2)) (by omega) L c0 env hws) ?_
         simp only [Bool.false_eq_true, if_false]
         refine bind_run _ _ _ _ _ _ (mangleVar_run_S _ _ _ _ _) ?_
         refine bind_run _ _ _ _ _ _ (emit_run_S _ _ _ _ _ _) ?_
@@ -149,7 +149,40 @@ theorem compile_gstmt : ∀ (fuel : Nat),
           ⟨isp, ty, cnd, t, eb, rfl, hty, hcnd, ht, heb⟩ | ⟨isp, ty, cnd, t, rfl, hty, hcnd, ht⟩ |
           ⟨csp, cty, isp, ity, name, g, f, si, args, sw, rfl, hcase⟩ | ⟨tsp, tty, tb, ci, cb, rfl, htty, htb, hcb⟩ |
           ⟨msp, mty, mc, arms, db, rfl, hmty, hmc, hmarms, hmdb⟩ | ⟨asp, op, isp, ity, b, i, r, rfl⟩ |
-          ⟨asp, op, msp', mty', b, name, r, rfl⟩
+          ⟨asp, op, msp', mty', b, name, r, rfl⟩ | ⟨csp, cty, msp', mty', b, a, rfl⟩
+        rotate_right
+        · -- `l.push(x);`
+          simp only [Frag.okFS, Bool.and_eq_true, beq_iff_eq] at hs
+          obtain ⟨⟨⟨⟨_, _⟩, hnull⟩, hb⟩, hat⟩ := hs
+          simp only [Frag.cdS, Frag.cdX] at hd
+          simp only [Frag.cdArgs, List.length_cons, List.length_nil] at hd
+          obtain ⟨f', rfl⟩ : ∃ f', fuel = f' + 3 := ⟨fuel - 3, by have := cdE_pos b; have := cdE_pos a.2; omega⟩
+          simp only [Frag.wsGS, Bool.and_eq_true] at hws
+          obtain ⟨hwb, hwa⟩ := hws
+          have hwa' : Frag.wsGE env.scopes (φOf cs) a.2 = true := by
+            simpa [Frag.wsGArgs, Frag.varsGArgs, Frag.callsGArgs, Frag.wsGE] using hwa
+          have hoka : Frag.okGE a.2 = true := okGE_of_atom a.2 hat
+          rw [compileStmt, cgS]
+          refine bind_run _ _ _ (updS cs L (c0 ++ _) _) () _ ?_ (by simp [Expr.ty, hnull]; rfl)
+          rw [compileExpr]
+          simp only [List.reverse_cons, List.reverse_nil, List.nil_append, List.map_cons, List.map_nil]
+          have hargs : (compileExprs (f' + 2) [a.2]).run (updS cs L c0 env) =
+              ((), updS cs L (c0 ++ (cgE cs.currModule (ρS env.scopes) (φOf cs) a.2 env.lm).1)
+                { env with lm := (cgE cs.currModule (ρS env.scopes) (φOf cs) a.2 env.lm).2 }) := by
+            rw [compileExprs]
+            refine bind_run _ _ _ _ _ _ ((compile_gexpr (f' + 1)).1 a.2 cs hoka (by omega) L c0 env hwa') ?_
+            rw [compileExprs]; rfl
+          refine bind_run _ _ _ _ _ _ hargs ?_
+          simp only [Bool.false_eq_true, if_false]
+          rw [compileExpr]
+          have hbase := compile_xexpr (f' + 1) b cs hb (by omega) L
+            (c0 ++ (cgE cs.currModule (ρS env.scopes) (φOf cs) a.2 env.lm).1)
+            { env with lm := (cgE cs.currModule (ρS env.scopes) (φOf cs) a.2 env.lm).2 } hwb
+          refine bind_run _ _ _ _ _ _ (bind_run _ _ _ _ _ _ hbase (emit_run_S _ _ _ _ _ _)) ?_
+          refine bind_run _ _ _ _ _ _ (emit_run_S _ _ _ _ _ _) ?_
+          rw [emit_run_S]
+          simp only [List.length_cons, List.length_nil, List.append_assoc, List.cons_append, List.nil_append]
+          rfl
         rotate_right
         · -- `o.f = e`, `o.f op= e`
           rw [okFS_memAssign] at hs
